@@ -459,6 +459,7 @@ def _check_write_read(ctx, rule_w, rule_r, nlen):
     ctx.fn(repo.find_member(ci, '__init__')[1])
     meta = make_meta(repo)
     infos = [make_info(repo, k, meta) for k in (1, 2, 3)]
+    infos[1].attrs['model_fluxes'] = None          # written without the predicted fluxes (the default of fit()): 'with and without stored predicted fluxes'
     st, Iw, err = write_records(repo, infos, nlen)
     where_w, where_r = loc(wfi), loc(ifi)
     if err is not None:
@@ -576,6 +577,7 @@ def _check_truncation(ctx, rule, nlen):
     where_ = loc(ifi)
     meta = make_meta(repo)
     infos = [make_info(repo, k, meta) for k in (1, 2, 3)]
+    infos[1].attrs['model_fluxes'] = None          # written without the predicted fluxes (the default of fit()): 'with and without stored predicted fluxes'
     st, Iw, err = write_records(repo, infos, nlen)
     if err is not None:
         ctx.undecided(rule + 'a', 'the file that is cut', loc(repo.find_member(ci, 'write')[1]), 'writing not modelled: %r' % (err,))
